@@ -8,7 +8,7 @@ import traceback
 
 import z3
 
-from . import llir, harness, solve, symex, ops, sym, sysconsts, configs, replay, known
+from . import llir, harness, solve, symex, ops, sym, sysconsts, configs, replay, known, memops, memreplay
 
 _MODS = {}
 
@@ -133,7 +133,7 @@ def solve_wrapper(task):
         mod = get_mod(task['ll'])
         fn = mod.fns[meta['name']]
         res['ir_hash'] = task.get('ir_hash')
-        case = harness.build_case(mod, meta)
+        case = memops.build_case(mod, meta, task['prop']) if meta.get('mem') else harness.build_case(mod, meta)
         res['paths'] = case.stats['paths']
         res['steps'] = case.stats['steps']
         res['intrinsics'] = case.stats['intrinsics']
@@ -156,7 +156,7 @@ def solve_wrapper(task):
                 break
             progressed = False
             for s in d['sat']:
-                rp = replay.replay_cex(task['prop'], meta, cfg, [a[1] for a in fn.args], fn.ret, s['model'], s['kind'])
+                rp = do_replay(task, mod, fn, cfg, case, s, pf)
                 rec = {'kind': s['kind'], 'desc': s['desc'], 'inputs': rp['inputs'], 'rm': rp['rm'], 'replay': rp['path'],
                        'confirmed': rp['confirmed'], 'detail': rp['detail'], 'solver': s['solver']}
                 if not rp['confirmed']:
@@ -222,6 +222,28 @@ def solve_wrapper(task):
     res['time'] = time.time() - t0
     res['rss_mb'] = resource.getrusage(resource.RUSAGE_SELF).ru_maxrss // 1024
     return res
+
+
+def do_replay(task, mod, fn, cfg, case, s, pf):
+    meta = task['meta']
+    if not meta.get('mem'):
+        return replay.replay_cex(task['prop'], meta, cfg, [a[1] for a in fn.args], fn.ret, s['model'], s['kind'])
+    model = s['model']
+    mo = memops.BY_NAME[meta['op']]
+    if mo.kind in ('gather', 'scatter'):
+        # second stage: same obligation under replay-friendly index constraints (the claim itself stays unconstrained)
+        case2 = memops.build_case(mod, meta, task['prop'], replayable=True)
+        model2 = None
+        for ob in case2.obligations:
+            if ob['kind'] == s['kind'] and ob['desc'] == s['desc']:
+                r, m, by = pf.check(case2.assumptions, ob['formula'])
+                if r == 'sat':
+                    model2 = m
+                    break
+        if model2 is None:
+            return {'confirmed': False, 'detail': {'replay': 'no counterexample with natively mappable indices'}, 'path': '', 'inputs': [str({k: v for k, v in model.items() if not k.startswith('mem_')})], 'rm': 'RNE'}
+        model = model2
+    return memreplay.replay_cex(task['prop'], meta, cfg, [a[1] for a in fn.args], fn.ret, model, s['kind'])
 
 
 def exclusion(case, model):
